@@ -125,6 +125,28 @@ class World:
             self.cache[k] = v
         return v
 
+    def abs_rrset(self, r):
+        """one-record rrset with absolute names, as a server renders it (cached; to_wire does not mutate it)"""
+        k = ("abs",) + tuple(r)
+        v = self.cache.get(k)
+        if v is None:
+            v = dns.rrset.from_rdata(dns.name.from_text(r[0], None), int(r[1]), dns.rdata.from_text(IN, r[2], r[3]))
+            self.cache[k] = v
+        return v
+
+    def enc_rec(self, r) -> str:
+        """a record in wire order, as the model's parser input"""
+        name, ttl, rd = self.rec(r)
+        tk, d = self.rdkey(rd.rdtype, rd.covers(), rd)
+        return f"{self.nidx(name)}:{tk}:{ttl}:{d}"
+
+    def enc_wire_msg(self, md, m) -> str:
+        q = "-"
+        if m.question:
+            q = f"{self.nidx(m.question[0].name)}:{int(m.question[0].rdtype)}"
+        an = ";".join(self.enc_rec(r) for g in md["an"] for r in g) or "-"
+        return f"{m.rcode()}/{q}/{an}"
+
     def rrset(self, group):
         name, ttl, rd = self.rec(group[0])
         rs = dns.rrset.RRset(name, IN, rd.rdtype, rd.covers())
@@ -220,9 +242,7 @@ def build_messages(w: World, case):
         else:
             for g in md["an"]:
                 for r in g:
-                    name = dns.name.from_text(r[0], None)
-                    rd = dns.rdata.from_text(IN, r[2], r[3])
-                    m.answer.append(dns.rrset.from_rdata(name, int(r[1]), rd))
+                    m.answer.append(w.abs_rrset(r))
             wire = m.to_wire(max_size=65535)
             wires.append(wire)
             msgs.append(dns.message.from_wire(wire, xfr=True, origin=(w.origin if w.rel else None),
@@ -426,8 +446,19 @@ def eval_xfr(ctx: Ctx, c: dict, collect=None):
     # ---- model line
     req = c["req"]
     fix = VARIANT["fix"]
-    names_first = [w.enc_msg(m) for m in msgs]  # interns names before the table is printed
-    op = (f"c13.run fix={fix} tr={0 if trace is None else 1} o={enc_labels(w.eff.labels)} t={int(dns.rdatatype.from_text(req['rdtype']))} "
+    # the model gets what process_message gets (P=0), or — when the messages went through wire format — the
+    # records in wire order, which it reads like dns.message.from_wire(xfr=True, one_rr_per_rrset=is_ixfr) (P=1/2)
+    wirep = c.get("via", "direct") != "direct"
+    pmode = 0 if not wirep else (2 if req["rdtype"] == "IXFR" else 1)
+    if wirep:
+        names_first = [w.enc_wire_msg(md, m) for md, m in zip(c["msgs"], msgs)]
+        for j in sorted({0, len(msgs) - 1} if msgs else ()):
+            recs_j = ";".join(w.enc_rec(r) for g in c["msgs"][j]["an"] for r in g) or "-"
+            parsed_j = ";".join(w.enc_rrset(rs) for rs in msgs[j].answer) or "-"
+            ctx.corr(f"c13.parse one={1 if pmode == 2 else 0} N={w.enc_names()} R={recs_j}", parsed_j, c)
+    else:
+        names_first = [w.enc_msg(m) for m in msgs]  # interns names before the table is printed
+    op = (f"c13.run fix={fix} tr={0 if trace is None else 1} P={pmode} o={enc_labels(w.eff.labels)} t={int(dns.rdatatype.from_text(req['rdtype']))} "
           f"s={'none' if req['serial'] is None else req['serial']} u={1 if req['udp'] else 0} N=%s "
           f"Z={w.enc_keys(keys_before)} M={'|'.join(names_first) or '-'}")
     zs = "=" if keys_after == keys_before else w.enc_keys(keys_after)
@@ -957,17 +988,17 @@ def valid_cases(rng, st, nrand, exhaustive=False):
     exp = {"class": "valid", "shape": shape, "target": st["target"], "fault": "-"}
     rdtype = case["req"]["rdtype"]
     if case["req"]["udp"]:
-        yield with_msgs(case, to_msgs(rng, recs, [len(recs)], rdtype, st["o"]), exp, rng.choice(["direct", "wire", "sock"]))
+        yield with_msgs(case, to_msgs(rng, recs, [len(recs)], rdtype, st["o"]), exp, rng.choice(["wire", "wire", "sock"]))
         return
     if exhaustive:
         for sizes in all_compositions(len(recs)):
-            yield with_msgs(case, to_msgs(rng, recs, sizes, rdtype, st["o"], group=False), exp, "direct")
+            yield with_msgs(case, to_msgs(rng, recs, sizes, rdtype, st["o"], group=False), exp, "wire")
         return
     for i in range(nrand):
         sizes = [len(recs)] if i == 0 else rand_sizes(rng, len(recs))
         if sizes and sizes[0] == 0:
             sizes = sizes[1:]
-        via = rng.choice(["direct", "direct", "direct", "wire", "sock"])
+        via = rng.choice(["wire", "wire", "wire", "sock"])
         yield with_msgs(case, to_msgs(rng, recs, sizes, rdtype, st["o"], group=(rdtype == "AXFR" and rng.chance(1, 2))), exp, via)
 
 
@@ -1001,7 +1032,7 @@ def fault_cases(rng, st, every=True):
         exp = {"class": cls, "shape": shape, "fault": fault}
         if err:
             exp["err"] = err
-        return with_msgs(c, msgs, exp, "direct" if rng.chance(4, 5) else "wire")
+        return with_msgs(c, msgs, exp, "wire")
 
     positions = range(L) if every else sorted({rng.below(L) for _ in range(4)})
     in_del = lambda i: any(a <= i < b for a, b in st["delranges"])
@@ -1062,9 +1093,25 @@ def fault_cases(rng, st, every=True):
             msgs[j]["q"] = [o, rng.choice(["SOA", "AXFR" if rdtype == "IXFR" else "IXFR", "ANY"])]
         yield emit(recs, f"qtype@m{j}", "must-raise", "FormError", sizes=sizes, tweak=qt)
     # surplus after the final SOA, in the same message
-    extra = rng.choice([recs[max(0, L - 2)], [f"surplus.{o}", 300, "A", "192.0.2.77"], recs[-1]])
-    sizes = [L + 1] if udp else rand_sizes(rng, L - 1, empties=False) + [2]
-    yield emit(recs + [extra], "surplus-same-message", "must-raise", "FormError", sizes=sizes)
+    # (the surplus record is: a copy of an earlier record of that message, a new rdata for an (owner, type) seen
+    #  earlier in that message, a copy of the SOA, an unrelated record — a reader that merged it into an
+    #  earlier rrset would move it in front of the final SOA)
+    for _ in range(3):
+        klast = L if udp else min(L, rng.choice([1, 2, 4, 8, L]))
+        inlast = [r for r in recs[L - klast:L - 1] if not is_soa(r)] or [r for r in recs if not is_soa(r)]
+        pick = rng.choice(inlast) if inlast else None
+        cands = [[f"surplus.{o}", 300, "A", "192.0.2.77"], recs[-1]]
+        if pick:
+            cands += [pick, pick]
+            try:
+                alt = gen_rdata(rng, o, pick[2])
+            except ValueError:
+                alt = None
+            if alt and alt != pick[3] and pick[2] not in ("CNAME", "NSEC"):
+                cands += [[pick[0], pick[1], pick[2], alt]] * 3
+        extra = rng.choice(cands)
+        sizes = [L + 1] if udp else rand_sizes(rng, L - klast, empties=False) + [klast + 1]
+        yield emit(recs + [extra], "surplus-same-message", "must-raise", "FormError", sizes=sizes)
     if not udp:
         # … and in a later message: never read, the transfer is complete
         yield emit(recs + [extra], "surplus-next-message", "any", sizes=rand_sizes(rng, L, empties=False) + [1])
@@ -1155,12 +1202,22 @@ def generate(ctx: Ctx, scale: float, rng, budget_s: float):
                     ctx.count("step.cname-to-data")
                 if (n, t) in a.sets and a.sets[(n, t)][0] != b.sets[(n, t)][0]:
                     ctx.count("step.ttl-change")
+        # every case goes through wire format (rendered, then read back the way dns.query._inbound_xfr reads:
+        # xfr=True, one_rr_per_rrset only for IXFR); a sample is also handed to Inbound as hand-built messages
         for c in valid_cases(rng, st, 4):
             ctx.case(case_key(c), sample=c if len(st["recs"]) < 10 else None)
             eval_case(ctx, c)
+            if rng.chance(1, 2):
+                c2 = dict(c, via="direct")
+                ctx.case(case_key(c2))
+                eval_case(ctx, c2)
         for c in fault_cases(rng, st, every=(len(st["recs"]) <= 40)):
             ctx.case(case_key(c))
             eval_case(ctx, c)
+            if rng.chance(1, 5):
+                c2 = dict(c, via="direct")
+                ctx.case(case_key(c2))
+                eval_case(ctx, c2)
         if st["shape"] == "ixfr" and i % 2 == 0:
             for c in glue_cases(rng, st):
                 ctx.case(case_key(c))
